@@ -18,6 +18,7 @@ RULE = ("generated primitives (interval, circle, sphere, parallelogram in both v
         "samples; non-trivial = at least 10 rows passed the step test oracle; distinct = (expression shape, k class, "
         "parameter dependence, sampler kind)")
 RULE += '; a fifth of the cases at length scales 0.01 / 0.05 / 30 / 300; normals re-queried with the columns stored differently (another variable / the parameters in front of or behind the coordinates)'
+RULE += '; an eighth of the cases make one normal() call with 1100-5000 rows (forced constant polyhedra with 1100-2500 rows); polygons of size ~1 at coordinates of 100-1000 units'
 REQUIRED_REACH = ["IntervalSingleBoundaryPoint.normal", "CircleBoundary.normal", "SphereBoundary.normal", "ParallelogramBoundary.normal", "TriangleBoundary.normal",
                   "IntervalBoundary.normal", "ShapelyBoundary.normal", "UnionBoundaryDomain.normal", "CutBoundaryDomain.normal",
                   "IntersectionBoundaryDomain.normal", "TrimeshBoundary.normal"]
@@ -71,6 +72,21 @@ def gen_cases(seed, tier):
             cases.append({"spec": sp, "rows": gen_geo.param_rows(rng, kk_), "k": kk_, "seed": int(rng.integers(0, 2 ** 31)),
                           "info": {"kind": "prim", "dim": 2, "dep": False, "relations": ["large"], "desc": "G", "scale": 300.0}})
             continue
+        if len(cases) % 40 == 31:
+            # a constant polyhedron queried with one large call (more rows than typical block sizes of vectorised helpers)
+            sp = gen_geo.polyhedron(rng, rng.uniform(-2, 2, 3), float(rng.uniform(0.5, 1.5)))
+            cases.append({"spec": sp, "rows": {}, "k": 0, "seed": int(rng.integers(0, 2 ** 31)), "nbig": int(rng.choice([1100, 1500, 2500])),
+                          "info": {"kind": "prim", "dim": 3, "dep": False, "relations": ["bigcall"], "desc": "H"}})
+            continue
+        if len(cases) % 40 == 3:
+            # a polygon of size ~1 far from the origin (coordinates of a few hundred units): tolerances relative to the
+            # coordinate size must stay well below the size of the shape
+            off = float(rng.choice([100.0, 300.0, 1000.0]))
+            ctx = gen_geo.Ctx(rng, False, 0, None, 2)
+            sp = gen_geo.prim2d(ctx, rng.choice([-1.0, 1.0], 2) * rng.uniform(0.5, 1.0, 2) * off, float(rng.uniform(0.5, 1.5)), kinds=("polygon",))
+            cases.append({"spec": sp, "rows": {}, "k": 0, "seed": int(rng.integers(0, 2 ** 31)), "nbig": 600,
+                          "info": {"kind": "prim", "dim": 2, "dep": False, "relations": ["offset"], "desc": "G", "offset": off}})
+            continue
         if len(cases) % 20 == 11:
             # rectangles with collinear edges (corners of one operand on edges of the other): grid samples on both boundaries
             for _ in range(400):
@@ -95,6 +111,8 @@ def gen_cases(seed, tier):
             dom["info"] = dict(dom["info"], scale=S)
         cases.append({"spec": spec, "rows": dom["rows"], "info": dom["info"], "k": dom["k"],
                       "seed": int(rng.integers(0, 2 ** 31))})
+        if len(cases) % 8 == 6 and "polyhedron" not in geo.spec_ops(spec):
+            cases[-1]["nbig"] = [1100, 1500, 2500, 5000][(len(cases) // 8) % 4]      # one large call instead of 60 rows
     return cases
 
 
@@ -137,7 +155,7 @@ def run_case(case):
     kk = max(k, 1)
     shape = "".join(c for c in info["desc"] if not c.isdigit())
     res["cls"] = "%s|%s|%s" % (shape, _kcls(k), "dep" if info["dep"] else "const")
-    mech0 = {"root": info["kind"], "dep": bool(info["dep"]), "k": _kcls(k), "bcls": None, "scale": info.get("scale", 1.0)}
+    mech0 = {"root": info["kind"], "dep": bool(info["dep"]), "k": _kcls(k), "bcls": None, "scale": info.get("scale", 1.0), "offset": info.get("offset", 0.0)}
     names_dims = node.space()
     try:
         Db = D.boundary
@@ -153,7 +171,7 @@ def run_case(case):
         mech = dict(mech0, sampler=kind)
         try:
             probes.begin_call()
-            own = Db.sample_random_uniform(n=60, params=Pp) if kind == "random" else Db.sample_grid(n=40, params=Pp)
+            own = Db.sample_random_uniform(n=case.get("nbig", 60), params=Pp) if kind == "random" else Db.sample_grid(n=40, params=Pp)
             probes.end_call()
         except Exception as e:
             res["counters"]["boundary_sampling_failed"] = res["counters"].get("boundary_sampling_failed", 0) + 1
@@ -240,6 +258,12 @@ def run_case(case):
             res["viol"].append(viol("normal_depends_on_batch", "%s.normal on %s: %d rows get a different normal when queried alone / in a small "
                                     "batch than inside the full batch" % (type(Db).__name__, info["desc"], diffs), **mech))
         eps = 2e-3 * L
+        if "offset" in info.get("relations", []):
+            # a small shape far from the origin: the step is relative to the size of the shape (bounded below by the float32
+            # resolution of the coordinates), not to the distance from the origin
+            bb_ = node.bbox(envr, len(X))
+            size_ = float((bb_[:, 1::2] - bb_[:, 0::2]).max()) if bb_ is not None else L
+            eps = max(2e-3 * size_, 64 * float(np.spacing(np.float32(np.abs(X).max()))))
         g, gn = _grad(node, X, envr, eps / 8)
         smooth = gn > 0.5
         for t in _tangents(g):
